@@ -3148,7 +3148,8 @@ class Gaussian(Preparation, Decomposition):
             for n, v in enumerate(BD_modes):
                 if not np.all(v - np.identity(2) < _decomposition_tol):
                     r = np.abs(np.arccosh(np.sum(np.diag(v)) / 2)) / 2
-                    phi = np.arctan(2 * v[0, 1] / np.sum(np.diag(v) * [1, -1]))
+                    # v[0, 1] = -sinh(2r) sin(phi), v[1, 1] - v[0, 0] = 2 sinh(2r) cos(phi)
+                    phi = np.arctan2(-2 * v[0, 1], v[1, 1] - v[0, 0])
                     cmds.append(Command(Squeezed(r, phi), reg[n]))
                 else:
                     cmds.append(Command(Vac, reg[n]))
